@@ -10,14 +10,14 @@ LEVEL = "exploration"
 RULE = (
     "Cases = validity pattern x accepted (min,max,sil,init_min,init_max_silence,mode) "
     "x frame kind (unique objects / characters / bytes) x delivery mode (list / generator / "
-    "callback). Exhaustive part: all patterns up to length L x all accepted tuples with "
+    "callback), a quarter of the generated cases on a tokenizer that was used before on another stream. Exhaustive part: all patterns up to length L x all accepted tuples with "
     "max_length<=M and the initial-phase settings listed in 'exhaustive_part'; generated part: "
     "Hypothesis streams (run-length construction biased to the parameter boundaries, or iid). "
     "Oracle: for each delivered (frames,start,end): 0<=start<=end<n, len(frames)==end-start+1, "
     "frames[k] IS (identity, for unique-object frames; == otherwise) stream[start+k], "
     "start_i > end_{i-1}. Non-trivial = at least one token and at least 3 runs in the pattern."
 )
-MUST_HIT = ["cut_in_silence_with_drop", "init_candidate_abandoned", "kind_obj", "deliv_cb", "deliv_gen"]
+MUST_HIT = ["cut_in_silence_with_drop", "init_candidate_abandoned", "kind_obj", "deliv_cb", "deliv_gen", "reused_tokenizer"]
 ASSUMPTIONS = ["harness sources hand out frames in stream order (vf/tok.py)"]
 
 BOUNDS = {
@@ -58,10 +58,11 @@ def abandoned_shape(pat, p):
 def check_case(case, rec):
     pat, p, kind = case["pat"], case["p"], case.get("kind", "obj")
     n = len(pat)
-    frames, validator, source = tok.make_stream(pat, kind)
-    tk = tok.make_tokenizer(validator, p)
+    frames, source, tk = tok.prepare(case)
     toks = tok.deliver(tk, source, case.get("deliv", "list"))
     classes = {f"kind_{kind}", f"deliv_{case.get('deliv', 'list')}"}
+    if case.get("pre"):
+        classes.add("reused_tokenizer")
     mx, mode = p[1], p[5]
     prev_end = -1
     for t in toks:
@@ -99,6 +100,8 @@ def explicit_cases():
         {"pat": "10010111", "p": [1, 4, 1, 2, 0, 0], "kind": "obj", "deliv": "list"},
         {"pat": "10011", "p": [1, 4, 0, 3, 2, 0], "kind": "char", "deliv": "list"},
         {"pat": "1101", "p": [2, 3, 1, 0, 0, 4], "kind": "bytes", "deliv": "gen"},
+        {"pat": "0110", "p": [1, 4, 1, 3, 1, 0], "kind": "obj", "deliv": "list", "pre": {"pat": "0011", "how": "list"}},
+        {"pat": "110", "p": [1, 2, 1, 0, 0, 0], "kind": "obj", "deliv": "list", "pre": {"pat": "110", "how": ["gen", 1]}},
     ]
 
 
